@@ -529,11 +529,12 @@ func TestExtremeLengths(t *testing.T) {
 	if f7Infra != "" {
 		t.Fatalf("VERIF-INFRA: the extreme-length probe could not run: %s", f7Infra)
 	}
-	n, bad := 0, 0
+	n, bad, mine := 0, 0, 0
 	for _, c := range f7Cases() {
 		v := f7Verdicts[c.key()]
 		if hx.Mine(n) {
 			noteExtreme(c, v)
+			mine++
 		}
 		n++
 		if v.bad {
@@ -579,7 +580,7 @@ func TestExtremeLengths(t *testing.T) {
 			return
 		}
 	}
-	hx.Part("extreme announced lengths: entry point x length table x masked (child processes)", int64(len(f7Cases())+len(rest)), true)
+	hx.Part("extreme announced lengths: entry point x length table x masked (child processes)", int64(mine+len(rest)), true)
 }
 
 // TestHeaderAlloc: header decoding allocates < 4 KiB whatever length is
@@ -589,12 +590,19 @@ func TestExtremeLengths(t *testing.T) {
 func TestHeaderAlloc(t *testing.T) {
 	lens := append([]int64{0, 1, 125, 126, 65535, 65536, capLen, capLen + 1}, lengthTable...)
 	var cases []xcase
+	var all []struct{}
 	for _, e := range []string{"ReadHeader", "NextFrame", "NextFrame+Max"} {
 		for _, l := range lens {
 			for _, m := range []bool{false, true} {
-				cases = append(cases, xcase{Entry: e, Length: l, Masked: m, Op: ref.OpBinary})
+				if hx.Mine(len(all)) {
+					cases = append(cases, xcase{Entry: e, Length: l, Masked: m, Op: ref.OpBinary})
+				}
+				all = append(all, struct{}{})
 			}
 		}
+	}
+	if len(cases) == 0 {
+		return
 	}
 	results, tail, err := runChild(cases)
 	if err != nil {
